@@ -80,6 +80,14 @@ def crash_dataset(rng):
     # make sure host comments / downtimes (no service reference) exist, and flavours differ
     for i, b in enumerate(ds["backends"]):
         b["flags"] = [["Naemon", "HasLastUpdateColumn"], [], ["Shinken"]][i % 3]
+        # value shapes a backend may send: fewer custom variable values than names, and the other way round
+        for tname in ("hosts", "services"):
+            t = b["tables"][tname]
+            if "custom_variable_names" in t["cols"] and "custom_variable_values" in t["cols"] and t["rows"]:
+                ni, vi = t["cols"].index("custom_variable_names"), t["cols"].index("custom_variable_values")
+                t["rows"][0][ni], t["rows"][0][vi] = ["A", "B"], ["1"]
+                if len(t["rows"]) > 1:
+                    t["rows"][1][ni], t["rows"][1][vi] = ["A"], ["1", "2"]
         hosts = b["tables"]["hosts"]["rows"]
         if hosts:
             hn = hosts[0][b["tables"]["hosts"]["cols"].index("name")]
